@@ -368,32 +368,7 @@ func runC08(p *Program, r *Report) {
 	// the parser finds there later depends on when the buffer was refilled, i.e. on how the
 	// source segments its data (a payload kept from a Peek is overwritten under short reads
 	// and intact under one big read).
-	nView, badView := 0, ""
-	for _, f := range p.SrcFuncs() {
-		if !inMeta(f) {
-			continue
-		}
-		for _, b := range f.Blocks {
-			for _, in := range b.Instrs {
-				c, ok := in.(ssa.CallInstruction)
-				if !ok {
-					continue
-				}
-				name := ""
-				if c.Common().IsInvoke() {
-					name = c.Common().Method.Name()
-				} else if cf := staticCallee(c); cf != nil && cf.Signature.Recv() != nil {
-					name = cf.Name()
-				}
-				nView++
-				switch name {
-				case "Peek", "ReadSlice", "ReadLine":
-					badView = fmt.Sprintf("%s calls %s at %s: the result is a view into the reader's own buffer, overwritten by the next refill — what the parser keeps from it depends on the read schedule", shortFn(f), name, p.InstrPos(in))
-				}
-			}
-		}
-	}
-	r.Check(badView == "", "C08.RD6", "no borrowed buffer views", "-", fmt.Sprintf("%d calls scanned: no Peek/ReadSlice/ReadLine in meta/... (every byte the parsers keep is copied out of the stream)", nView), badView)
+	borrowedViewScan(p, r, "C08.RD6")
 
 	// RD3
 	bin := p.SSAPkg[ModPath+"/meta/binary"]
@@ -614,4 +589,37 @@ func memReaderArg(c *ssa.Call) bool {
 		}
 	}
 	return false
+}
+
+// borrowedViewScan (C08.RD6, C06.owned): no call in the parsing packages returns a view into a
+// buffered reader's own buffer (Peek / ReadSlice / ReadLine). Such a slice is valid only until the
+// next refill, while the parsers keep payload slices (ICC chunks, staging buffers) until the end of
+// the parse.
+func borrowedViewScan(p *Program, r *Report, rule string) {
+	nView, badView := 0, ""
+	for _, f := range p.SrcFuncs() {
+		if !inMeta(f) {
+			continue
+		}
+		for _, b := range f.Blocks {
+			for _, in := range b.Instrs {
+				c, ok := in.(ssa.CallInstruction)
+				if !ok {
+					continue
+				}
+				name := ""
+				if c.Common().IsInvoke() {
+					name = c.Common().Method.Name()
+				} else if cf := staticCallee(c); cf != nil && cf.Signature.Recv() != nil {
+					name = cf.Name()
+				}
+				nView++
+				switch name {
+				case "Peek", "ReadSlice", "ReadLine":
+					badView = fmt.Sprintf("%s calls %s at %s: the result is a view into the reader's own buffer, overwritten by the next refill — what the parser keeps from it depends on the read schedule", shortFn(f), name, p.InstrPos(in))
+				}
+			}
+		}
+	}
+	r.Check(badView == "", rule, "no borrowed buffer views", "-", fmt.Sprintf("%d calls scanned: no Peek/ReadSlice/ReadLine in meta/... (every byte the parsers keep is copied out of the stream)", nView), badView)
 }
